@@ -294,3 +294,23 @@ def scheduled(sc, plan, labels, grace=0.4, lines=False):
     out['observe'] = True
     out['fresh'] = True
     return out
+
+
+def line_schedules(ck, sc, labels, rnd, blocks=40, preempt=1, cap=None):
+    """The scenario under SshSched plans at source-line granularity: the line counts of the workers are measured on a first run, divided
+    into `blocks` blocks, and every plan with at most `preempt` preemptions at block boundaries is generated by TLC; each boundary is
+    moved by a random offset inside its block, so that repeated use visits different lines.  -> [(plan in lines, scenario)]"""
+    from harness import runner, common
+    probe = runner.run_many([scheduled(sc, [[w, -1] for w in range(len(labels))], labels, lines=True)])[0]
+    if probe.get('harness_error') or not probe.get('sched'):
+        raise common.Machinery('line-granular probe run failed: %r' % (probe.get('harness_error') or probe.get('hang')))
+    ops = [max(1, probe['sched']['ops'].get(l, 0)) for l in labels]
+    stride = max(1, max(ops) // blocks)
+    plans, _ = schedule_plans(ck, [-(-o // stride) for o in ops], preempt)
+    if cap and len(plans) > cap:
+        plans = rnd.sample(plans, cap)
+    out = []
+    for pl in plans:
+        lp = [[w, (max(1, k * stride - rnd.randrange(stride)) if k > 0 else k)] for w, k in pl]
+        out.append((lp, scheduled(sc, lp, labels, lines=True)))
+    return out
